@@ -8,10 +8,31 @@ has to be decoded).  `bitflags::parser::from_str` is transcribed for names and `
 -/
 namespace Oov
 
-/-! ## small text helpers -/
+/-! ## small text helpers
 
-def trim (s : List Char) : List Char :=
-  ((s.dropWhile Wire.isWs).reverse.dropWhile Wire.isWs).reverse
+The readers are parametrised by the white-space predicate `ws` of `str::trim` / `split_whitespace`: the driver decodes
+the files (strict UTF-8, as `BufRead::lines` does) and runs them with Unicode `White_Space` (`isWsU`); `Wire.isWs` (ASCII)
+is the instance used on byte strings (C20's model). -/
+
+/-- `char::is_whitespace`: the Unicode property `White_Space` -/
+def isWsU (c : Char) : Bool :=
+  let n := c.toNat
+  (9 ≤ n && n ≤ 13) || n == 32 || n == 0x85 || n == 0xA0 || n == 0x1680 || (0x2000 ≤ n && n ≤ 0x200A) ||
+  n == 0x2028 || n == 0x2029 || n == 0x202F || n == 0x205F || n == 0x3000
+
+def trimW (ws : Char → Bool) (s : List Char) : List Char := CharCat.trimW ws s
+
+def trim (s : List Char) : List Char := trimW Wire.isWs s
+
+/-- `str::split_whitespace` for a given white-space predicate -/
+def wordsW (ws : Char → Bool) (s : List Char) : List (List Char) :=
+  (go s [] []).reverse
+where
+  go : List Char → List Char → List (List Char) → List (List Char)
+    | [], cur, acc => if cur.isEmpty then acc else cur.reverse :: acc
+    | c :: cs, cur, acc =>
+      if ws c then (if cur.isEmpty then go cs [] acc else go cs [] (cur.reverse :: acc))
+      else go cs (c :: cur) acc
 
 /-- `BufRead::lines`: split at `\n`, a final empty piece is not a line, a trailing `\r` is removed -/
 def lines (text : List Char) : List (List Char) :=
@@ -23,18 +44,36 @@ def lines (text : List Char) : List (List Char) :=
     | '\r' :: r => r.reverse
     | _ => l)
 
-/-- `bitflags::parser::from_str::<CategoryType>` (names joined by `|`; hex literals are not generated) -/
-def parseCatType (s : List Char) : Option Nat :=
-  if (trim s).isEmpty then some 0 else
-  (Wire.splitOn '|' s).foldl (fun acc f =>
-    match acc with
-    | none => none
-    | some a =>
-      let f := trim f
-      if f.isEmpty then none else
-      match CharCat.catOfName? f with
-      | some c => some (a ||| c)
-      | none => none) (some 0)
+/-- `String::from_utf8` (what `BufRead::lines` applies to every line): well-formed UTF-8 only — no stray continuation
+byte, no overlong form (`C0`, `C1`, `E0 80..9F`, `F0 80..8F`), no surrogate (`ED A0..BF`), nothing above U+10FFFF.
+State: continuation bytes still expected (`need`), value so far, and the range the NEXT continuation byte must lie in
+(only the first continuation byte of a sequence is restricted further than `80..BF`). -/
+def utf8Go : List Nat → Nat → Nat → Nat → Nat → Option (List Nat)
+  | [], need, _, _, _ => if need = 0 then some [] else none
+  | b :: rest, 0, _, _, _ =>
+    if b < 0x80 then (utf8Go rest 0 0 0 0).map (b :: ·)
+    else if b < 0xC2 then none
+    else if b < 0xE0 then utf8Go rest 1 (b - 0xC0) 0x80 0xBF
+    else if b < 0xF0 then utf8Go rest 2 (b - 0xE0) (if b = 0xE0 then 0xA0 else 0x80) (if b = 0xED then 0x9F else 0xBF)
+    else if b < 0xF5 then utf8Go rest 3 (b - 0xF0) (if b = 0xF0 then 0x90 else 0x80) (if b = 0xF4 then 0x8F else 0xBF)
+    else none
+  | b :: rest, need + 1, acc, lo, hi =>
+    if lo ≤ b ∧ b ≤ hi then
+      if need = 0 then (utf8Go rest 0 0 0 0).map ((acc * 64 + (b - 0x80)) :: ·)
+      else utf8Go rest need (acc * 64 + (b - 0x80)) 0x80 0xBF
+    else none
+
+def utf8Strict (bs : List Nat) : Option (List Nat) := utf8Go bs 0 0 0 0
+
+/-- the lines of a file as `reader.lines()` yields them, decoded; `none` = some line is not UTF-8 (`line?` is `Err`) -/
+def linesU (text : List Char) : Option (List (List Char)) :=
+  Wire.allSome ((lines text).map (fun l => (utf8Strict (l.map Char.toNat)).map (·.map Char.ofNat)))
+
+/-- `bitflags::parser::from_str::<CategoryType>`: names and hex literals (`0x…`, `from_bits_retain`) joined by `|`
+(`CharCat.catOfStrW?`, shared with the range lines of char.def) -/
+def parseCatTypeW (ws : Char → Bool) (s : List Char) : Option Nat := CharCat.catOfStrW? ws s
+
+def parseCatType (s : List Char) : Option Nat := CharCat.catOfStr? s
 
 /-- `str::parse::<u32>` (optional `+`) -/
 def parseU32 (s : List Char) : Option Nat :=
@@ -56,22 +95,26 @@ def parseI16 (s : List Char) : Option Int :=
   | none => none
 
 /-- `read_character_property`; `none` = `Err` -/
-def readCharProp : List (List Char) → List (Nat × CatInfo) → Option (List (Nat × CatInfo))
+def readCharPropW (ws : Char → Bool) : List (List Char) → List (Nat × CatInfo) → Option (List (Nat × CatInfo))
   | [], acc => some acc
   | line :: rest, acc =>
-    let line := trim line
-    if line.isEmpty || line.head? == some '#' || line.take 2 == ['0', 'x'] then readCharProp rest acc
+    let line := trimW ws line
+    if line.isEmpty || line.head? == some '#' || line.take 2 == ['0', 'x'] then readCharPropW ws rest acc
     else
-      match Wire.words line with
+      match wordsW ws line with
       | c0 :: c1 :: c2 :: c3 :: _ =>
-        match parseCatType c0 with
+        match parseCatTypeW ws c0 with
         | none => none
         | some ct =>
           if (findKey ct acc).isSome then none
           else match parseU32 c3 with
             | none => none
-            | some len => readCharProp rest (acc ++ [(ct, ⟨ct, c1 == ['1'], c2 == ['1'], len⟩)])
+            | some len => readCharPropW ws rest (acc ++ [(ct, ⟨ct, c1 == ['1'], c2 == ['1'], len⟩)])
       | _ => none
+
+/-- the reader on byte strings (ASCII white space) -/
+def readCharProp (ls : List (List Char)) (acc : List (Nat × CatInfo)) : Option (List (Nat × CatInfo)) :=
+  readCharPropW Wire.isWs ls acc
 
 /-- `oov_list.get_mut(cat).push(oov)` / insert -/
 def pushOov (k : Nat) (d : OovDef) : List (Nat × List OovDef) → List (Nat × List OovDef)
@@ -84,18 +127,18 @@ def posIndex (pos : List (List (List Char))) (want : List (List Char)) : Option 
   if i < pos.length then some i else none
 
 /-- `read_oov` with `userPOS: forbid`; `none` = `Err` -/
-def readOov (ge : Bool) (cats : List (Nat × CatInfo)) (pos : List (List (List Char))) (numLeft numRight : Nat) :
+def readOov (ws : Char → Bool) (ge : Bool) (cats : List (Nat × CatInfo)) (pos : List (List (List Char))) (numLeft numRight : Nat) :
     List (List Char) → List (Nat × List OovDef) → Option (List (Nat × List OovDef))
   | [], acc => some acc
   | line :: rest, acc =>
-    let line := trim line
-    if line.isEmpty || line.head? == some '#' then readOov ge cats pos numLeft numRight rest acc
+    let line := trimW ws line
+    if line.isEmpty || line.head? == some '#' then readOov ws ge cats pos numLeft numRight rest acc
     else
       let cols := Wire.splitOn ',' line
       if cols.length < 10 then none else
       match cols with
       | c0 :: c1 :: c2 :: c3 :: more =>
-        match parseCatType c0 with
+        match parseCatTypeW ws c0 with
         | none => none
         | some ct =>
           if (findKey ct cats).isNone then none else
@@ -105,7 +148,7 @@ def readOov (ge : Bool) (cats : List (Nat × CatInfo)) (pos : List (List (List C
             -- a negative id becomes huge
             if l < 0 || l.toNat > numLeft || (ge && l.toNat == numLeft) then none
             else if r < 0 || r.toNat > numRight || (ge && r.toNat == numRight) then none
-            else readOov ge cats pos numLeft numRight rest (pushOov ct ⟨l.toNat, r.toNat, c, p⟩ acc)
+            else readOov ws ge cats pos numLeft numRight rest (pushOov ct ⟨l.toNat, r.toNat, c, p⟩ acc)
           | _, _, _, _ => none
       | _ => none
 
@@ -157,13 +200,17 @@ def parseMecab (toks : List (List Char)) : Option (Option MecabCfg) :=
   | some md, some unk, some pl, some nl, some nr =>
     match Wire.hexBytes? md, Wire.hexBytes? unk, Wire.hexBytes? pl, Wire.nat? nl, Wire.nat? nr with
     | some md, some unk, some pl, some nl, some nr =>
-      let pos := (lines (bytesToChars pl)).map (Wire.splitOn ',')
-      match readCharProp (lines (bytesToChars md)) [] with
-      | none => some none
-      | some cats =>
-        match readOov (Wire.kv? toks "unkge" == some ['1']) cats pos nl nr (lines (bytesToChars unk)) [] with
+      -- the three files are decoded line by line as `reader.lines()` does: a line that is not UTF-8 is `Err`
+      match linesU (bytesToChars md), linesU (bytesToChars unk), linesU (bytesToChars pl) with
+      | some mdl, some unkl, some pll =>
+        let pos := pll.map (Wire.splitOn ',')
+        match readCharPropW isWsU mdl [] with
         | none => some none
-        | some oovs => some (some ⟨cats, oovs⟩)
+        | some cats =>
+          match readOov isWsU (Wire.kv? toks "unkge" == some ['1']) cats pos nl nr unkl [] with
+          | none => some none
+          | some oovs => some (some ⟨cats, oovs, Wire.kv? toks "mstop" == some ['1']⟩)
+      | _, _, _ => some none
     | _, _, _, _, _ => none
   | _, _, _, _, _ => none
 
@@ -274,15 +321,18 @@ def handleLat (toks : List (List Char)) : String :=
       | some ps =>
         if ps.isEmpty then "err:setup" else
         if buf.chars.isEmpty then "ok " else
-        match buildLatticeT ps lex buf with
-        | .panic _ => "PANIC"
-        | .err k => "err:" ++ k
-        | .ok (nodes, tr) =>
+        -- every completed `provide_oov` call is printed, also when the run ends in `Err` / a panic
+        let run := buildLatticeP ps lex buf
+        let calls := " calls=" ++ Wire.joinWith "+" (run.1.map showCall)
+        match run.2 with
+        | .panic _ => "PANIC" ++ calls
+        | .err k => "err:" ++ k ++ calls
+        | .ok nodes =>
           let per := (List.range buf.chars.length).filterMap (fun p =>
             let here := sortNodes (nodes.filter (fun x => x.b == p))
             if here.isEmpty then none
             else some (toString p ++ "=" ++ Wire.joinWith "," (here.map showLatNode)))
-          "ok " ++ Wire.joinWith ";" per ++ " calls=" ++ Wire.joinWith "+" ((allCalls tr).map showCall)
+          "ok " ++ Wire.joinWith ";" per ++ calls
     | _, _ => "bad-op"
   | some none, _, _ => "err"
   | _, _, _ => "bad-op"
